@@ -221,6 +221,9 @@ func fnGetRange(ctx *cmdContext, args map[string]any) (output respValue, err err
 		}
 
 		output.data = respBulkString(str[start : end+1])
+	} else {
+		// a missing key reads as the empty string
+		output.data = respBulkString("")
 	}
 
 	return
